@@ -88,6 +88,32 @@ let svg_configure (c : Svg.cfg) (o : string) : Svg.cfg =
   | "fitw" | "fith" -> c
   | _ -> failwith ("unknown option " ^ k)
 
+(* Vec<f64> argument: comma list, or - for empty *)
+let floats (v : string) : coq_Z list =
+  if v = "-" then [] else
+  let parts = Str.split_on_char ',' v in
+  if L.length parts = 2 then L.map hundredths_of_string parts
+  else (* a position array whose length is not 2 is ignored by the setter: its values do not matter *)
+    L.map (fun p -> try hundredths_of_string p with Unsupported -> Z0) parts
+
+let wasm_configure (o : Wasm.svg_options) (op : string) : Wasm.svg_options =
+  let (k, v) = split_once '=' op in
+  match k with
+  | "shape" -> Wasm.set_shape o (Svg.shape_of_idx (nat_of_int (int_of_string v)))
+  | "modcol" -> Wasm.set_module_color o (unhex v)
+  | "margin" -> Wasm.set_margin o (n_of_string v)
+  | "bg" -> Wasm.set_background_color o (unhex v)
+  | "image" -> Wasm.set_image o (unhex v)
+  | "ibg" -> Wasm.set_image_background_color o (unhex v)
+  | "ishape" -> Wasm.set_image_background_shape o (Svg.ishape_of_idx (nat_of_int (int_of_string v)))
+  | "isize" -> (match L.map hundredths_of_string (Str.split_on_char ',' v) with
+      | size :: gap :: _ -> Wasm.set_image_size o size gap
+      | _ -> failwith "isize")
+  | "ipos" -> Wasm.set_image_position o (floats v)
+  | "ecl" -> Wasm.set_ecl o (Types.ecl_of_idx (nat_of_int (int_of_string v)))
+  | "version" -> Wasm.set_version o (nat_of_int (int_of_string v))
+  | _ -> failwith "unknown wasm op"
+
 let run_case (a : string array) : string =
   try
     match a.(0) with
@@ -98,5 +124,18 @@ let run_case (a : string array) : string =
       for i = 3 to Array.length a - 1 do c := svg_configure !c a.(i) done;
       if Svg.to_str_panics !c (nat_of_int n) then "PANIC"
       else "OK " ^ hex (Svg.to_str !c (nat_of_int n) m) ^ " 1"
+    | "wasmqr" ->
+      (match Wasm.qr_unchecked (unhex a.(1)) with
+       | Types.Ok l -> "OK " ^ hex l
+       | Types.Panic _ -> "PANIC"
+       | _ -> "MODEL-ERR")
+    | "wasm" ->
+      let content = unhex a.(1) in
+      let o = ref Wasm.new_options in
+      for i = 2 to Array.length a - 1 do o := wasm_configure !o a.(i) done;
+      (match Wasm.qr_svg_unchecked content !o with
+       | Types.Ok l -> "OK " ^ hex l
+       | Types.Panic _ -> "PANIC"
+       | _ -> "MODEL-ERR")
     | _ -> "MODEL-UNSUPPORTED " ^ a.(0)
   with Unsupported -> "MODEL-UNSUPPORTED " ^ a.(0)
